@@ -150,7 +150,9 @@ def specEvent (algo : Algo) (l : Nat) (st : SpecSt) (e : EvLine) : SpecSt × Opt
     | 'R' =>
       let init := match algo with
         | .spray => 1
-        | .binary => match e.k with | some k => k | none => l
+        -- a relayed bundle holds the copies its BinarySprayBlock announces; one without a block (relayed by a
+        -- node that runs another algorithm) was not originated here and holds a single copy
+        | .binary => match e.k with | some k => k | none => 1
       { st with originated := false, entered := true, held := some init, restarted := false }
     | 'X' => { st with held := none, restarted := true }
     | _ => st
